@@ -473,6 +473,12 @@ class SchedRun:
         got = {i: res_class(results[i]) for i in range(n)}
         label = dict(backend=plan["backend"], mode=plan["mode"])
         recorded = dict(sch.record)
+        if os.environ.get("XSIM_TRACE_EXC"):
+            import traceback
+
+            for i in range(n):
+                if results[i] and results[i][0] == "exc" and got[i][1] not in ("LockedError", "InvalidETag", "DuplicateUidError", "NoSuchItem"):
+                    traceback.print_exception(type(results[i][1]), results[i][1], results[i][1].__traceback__, limit=-10)
         if self.prop == "C09":
             return self.git_view(plan, work, got, sch, recorded)
 
@@ -497,6 +503,11 @@ class SchedRun:
         weird = [i for i in range(n) if got[i][0] == "exc" and got[i][1] not in ("LockedError", "InvalidETag", "DuplicateUidError", "NoSuchItem")]
         if weird:
             self.count("unexpected_exceptions", len(weird))
+            if os.environ.get("XSIM_TRACE_EXC"):
+                import traceback
+
+                for i in weird:
+                    traceback.print_exception(type(results[i][1]), results[i][1], results[i][1].__traceback__, limit=-10)
         live = [i for i in range(n) if i not in locked and i not in weird]
         match = None
         for order, res, fin in outcomes_for(live):
@@ -574,9 +585,10 @@ class SchedRun:
         p = subprocess.run(["git", "-c", "safe.directory=*", "-c", "core.quotepath=false", "status", "--porcelain"], cwd=work, env=env, capture_output=True, timeout=60)
         lines = [l for l in p.stdout.decode("utf-8", "replace").splitlines() if not l.rstrip().endswith("index.lock")]
         self.count("git.status")
+        weird = ",".join(sorted({g[1] for g in got.values() if g[0] == "exc" and g[1] not in ("LockedError", "InvalidETag", "DuplicateUidError", "NoSuchItem")}))
         if p.returncode != 0 or lines:
             self.violations.append({"prop": "C09", "oracle": "C09.status-not-clean-after-overlapping-requests",
-                                    "sig": {"oracle": "C09.status-not-clean-after-overlapping-requests", "mode": plan["mode"]}, "step": None,
+                                    "sig": {"oracle": "C09.status-not-clean-after-overlapping-requests", "mode": plan["mode"], "exceptions": weird}, "step": None,
                                     "detail": ("git status: %s | ops=%s results=%s switches=%s" % (lines[:4] or p.stderr[:200], [(o["op"], o["name"], o.get("cond")) for o in plan["ops"]], got, sch.signature[:6]))[:900]})
             return recorded
         p = subprocess.run(["git", "-c", "safe.directory=*", "fsck", "--strict", "--no-dangling"], cwd=work, env=env, capture_output=True, timeout=60)
